@@ -5,7 +5,7 @@ translate:  tools/translate/rng.py (cppcheck-errors.rng -> Report/Gen_RngSchema.
             tools/translate/critical_ids.py (ErrorLogger::mCriticalErrorIds -> Report/Gen_CriticalIds.v)
 prove:      coq/theories/Properties_C26.v (sequential template substitution = documented meaning under
             clean fields, <error> element is in the XML grammar and denotes the finding under clean names,
-            RELAX NG conformance for findings without the attributes the schema lacks, JSON string
+            RELAX NG conformance of every reportable finding, JSON string
             grammar, SARIF results carry the findings, dedup) + the *_refuted witnesses
 correspond: X1 extracted model (Report/Run.v) vs harness/vh_c26.cpp on the real findAndReplace,
             substituteTemplateFormatStatic, fixInvalidChars, ErrorLogger::toxml, ErrorMessage::toString,
@@ -157,8 +157,7 @@ def rng_problems(schema, e):
     return probs
 
 
-KNOWN_RNG = {"attr:error/remark": "xml-rng-remark", "attr:location/origfile": "xml-rng-origfile", "severity:debug": "xml-rng-severity-debug",
-             "attr:error/guideline": "xml-rng-guideline", "attr:error/classification": "xml-rng-guideline"}
+KNOWN_RNG = {}   # the schema gaps found earlier (remark, origfile, guideline/classification, debug) were repaired in /repo e98437b
 
 
 def names_of(c):
@@ -182,7 +181,7 @@ def check(run, replay):
     quick = run.tier == "quick"
     rng = run.rng
     run.trusted_base += [
-        "Coq 8.16.1 kernel (coqc); vm_compute in the *_refuted witnesses, the Examples and the finite case analysis of C26_xml_conforms_rng_partial (16 attribute combinations x 6 severities over the regenerated tables)",
+        "Coq 8.16.1 kernel (coqc); vm_compute in the *_refuted witnesses, the Examples and the finite case analysis of C26_xml_conforms_rng (128 attribute combinations x 7 severities, 4 location shapes, over the regenerated tables)",
         "extraction: Require Extraction + ExtrOcamlBasic only; ocaml/driver.ml; harness/vh_common.h + vh_c26.cpp (builds an ErrorMessage from the case fields, `#define private public` for mShortMessage/mVerboseMessage/mSymbolNames and FileLocation::mFileName/mOrigFileName, then calls the real functions)",
         "translators tools/translate/rng.py (xml.dom.minidom over cppcheck-errors.rng; datatypes NCName/integer bounds are copied into a comment, not interpreted) and critical_ids.py (regex over the mCriticalErrorIds initialiser)",
         "the XML 1.0 element grammar and the JSON string grammar of Report/Spec.v are byte-level specifications written for this check (five predefined entities, attribute-value normalisation, no UTF-8 validity); real readers are consulted in the tie (xml.dom.minidom, json)",
@@ -497,7 +496,7 @@ def e2e(run, rng, quick, schema, scratch):
         addon = ["--addon=" + os.path.join(d, "inject.py")] if scen == "messages" else []
         common = ["-q", "--enable=style", "--inline-suppr"] + addon + ["."]
         _, _, text = run_cppcheck(["--template=" + tmpl] + common, d, env)
-        _, _, xml = run_cppcheck(["--xml"] + common, d, env)
+        _, _, xml = run_cppcheck(["--xml"] + (["--debug-warnings", "--report-type=misra-c-2012"] if scen == "names" else []) + common, d, env)
         _, _, sarif = run_cppcheck(["--output-format=sarif"] + common, d, env)
 
         # expected findings, by construction (what was planted / injected)
